@@ -1329,7 +1329,7 @@ def restart_session_part(out, wd):
         env = {"RNACOS_CONSOLE_LOGIN_TIMEOUT": str(TTL), "RNACOS_CONSOLE_LOGIN_ONE_HOUR_LIMIT": "100000", "RUST_LOG": "warn,rnacos::raft=info"}
         if variant == "snapshot":
             env["RNACOS_RAFT_SNAPSHOT_LOG_SIZE"] = "20"
-        node = procrig.Node(wd, 20 + (variant == "snapshot"), env=env, name="sess-" + variant)
+        node = procrig.Node(wd, 20 + ("log-replay", "snapshot", "after-expiry").index(variant), env=env, name="sess-" + variant)
         f = {"variant": variant}
         try:
             node.start(timeout=60)
@@ -1348,12 +1348,24 @@ def restart_session_part(out, wd):
                 f["snapshot_seen_in_log"] = "snapshot" in node.tail_log(200000).lower()
                 import glob
                 f["snapshot_files"] = len(glob.glob(os.path.join(node.dir, "**", "snapshot*"), recursive=True))
+            if variant == "after-expiry":
+                # the session runs out BEFORE the stop: refused by the running node, and still refused by the node that rebuilt its
+                # session store from the log a moment ago (whatever the rebuild stamps on the entry)
+                time.sleep(max(0.0, t_login + TTL + 1.5 - time.time()))
+                f["refused_before_restart"] = not passed(classify(send(node, probe, tok)))
+                if not f["refused_before_restart"]:
+                    return dict(f, hits=[{"request": "GET " + probe["path"], "carrier": "cookie", "answer": "accepted %.1f s after a login with a %d s session, before any restart" % (time.time() - t_login, TTL)}],
+                                fresh_login_accepted=True, probes=1)
+            else:
+                # half of the session's life lies before the stop, so that an expiry recomputed at start-up would reach well
+                # beyond the real one
+                time.sleep(max(0.0, t_login + TTL * 0.55 - time.time()))
             node.kill()
             node.start(timeout=60)
             f["restart_done_after_login_s"] = round(time.time() - t_login, 1)
             if time.time() - t_login < TTL - 1.5:
                 f["accepted_within_ttl_after_restart"] = classify(send(node, probe, tok)) == "handler"
-            time.sleep(max(0.0, t_login + TTL + 2.5 - time.time()))
+            time.sleep(max(0.0, t_login + TTL + 1.5 - time.time()))
             f["age_at_probe_s"] = round(time.time() - t_login, 1)
             hits = []
             for carrier in ("cookie", "header"):
@@ -1374,8 +1386,8 @@ def restart_session_part(out, wd):
         finally:
             node.kill()
 
-    with ThreadPoolExecutor(max_workers=2) as ex:
-        res = list(ex.map(one, ("log-replay", "snapshot")))
+    with ThreadPoolExecutor(max_workers=3) as ex:
+        res = list(ex.map(one, ("log-replay", "snapshot", "after-expiry")))
     n = 0
     for f in res:
         v = f["variant"]
